@@ -57,6 +57,24 @@ Proof.
   destruct (need <=? length (delivered s))%nat; [exact H|]. destruct H as [e [He _]]. exists e. exact He.
 Qed.
 
+(* the binary-length variant the model executes is the same function *)
+Lemma read_loop_N_eq need : forall s got, read_loop_N need got s = read_loop (N.to_nat need) got s.
+Proof.
+  induction s as [|[d e] rest IH]; intros got; cbn [read_loop_N read_loop]; [reflexivity|].
+  destruct (N.leb_spec (N.of_nat (length d)) (need - N.of_nat (length got))) as [H|H];
+    destruct (Nat.leb_spec (length d) (N.to_nat need - length got)) as [H'|H']; try lia.
+  - destruct (N.leb_spec need (N.of_nat (length (got ++ d)))) as [K|K];
+      destruct (Nat.leb_spec (N.to_nat need) (length (got ++ d))) as [K'|K']; try lia; [reflexivity|].
+    destruct e; [reflexivity|apply IH].
+  - replace (N.to_nat (need - N.of_nat (length got))) with (N.to_nat need - length got)%nat by lia. reflexivity.
+Qed.
+
+Lemma read_full_N_eq need s : read_full_N need s = read_full (N.to_nat need) s.
+Proof.
+  unfold read_full_N, read_full. destruct (N.eqb_spec need 0) as [->|H]; [reflexivity|].
+  destruct (Nat.eqb_spec (N.to_nat need) 0); [lia|]. apply read_loop_N_eq.
+Qed.
+
 (* ---------- bip39.go:NewMnemonic ---------- *)
 Definition sep_of (lg : Z) : list byte := if Z.eqb lg sep_special_value then sep_special else sep_default.
 
@@ -78,9 +96,10 @@ Proof.
   { unfold valid_wc_z in Hv. exists (Z.to_nat (n / 3)). lia. }
   destruct Hk as [k [Hn Hk]].
   assert (Hq : (n + Z.quot n 3 = n + n / 3)%Z) by lia. rewrite Hq.
-  assert (Hneg : (n + n / 3 <? 0)%Z = false) by lia. rewrite Hneg. fold need.
+  assert (Hneg : ((n + n / 3 <? 0) || (281474976710656 <? n + n / 3))%Z = false) by lia. rewrite Hneg. fold need.
   assert (Hneed : need = (4 * k)%nat) by (unfold need; lia).
   pose proof (read_full_spec need s ltac:(lia)) as R.
+  rewrite read_full_N_eq. replace (N.to_nat (Z.to_N (n + n / 3))) with need by (unfold need; lia).
   destruct (read_full need s) as [[buf err] s'] eqn:E. cbn [fst snd] in R.
   destruct (need <=? length (delivered s))%nat eqn:L.
   - injection R as -> ->. cbn [fst].
